@@ -35,10 +35,13 @@ type scenario struct {
 	ID    string `json:"id"`
 	Steps []step `json:"steps"`
 	Eager string `json:"eager,omitempty"` // "" | "stream" | "external": direct binding with acks handled inside Send
+	// RaceAt = [a, k]: step a+1 runs while the stream is parked at the k-th database boundary of its
+	// reaction to step a (race.go)
+	RaceAt []int `json:"raceAt,omitempty"`
 }
 
 const quietFor = 300 * time.Millisecond
-const quietMax = 6 * time.Second
+const quietMax = 10 * time.Second
 
 type session struct {
 	mu       sync.Mutex
@@ -159,8 +162,10 @@ func run(sc *scenario, scratch string) ([]map[string]any, error) {
 	s := &session{tr: sc.ID, msgIdx: map[string]int{}, ackID: map[int]string{}, wire: map[int]bool{}}
 	s.emit(map[string]any{"op": "Reset"})
 	var stream pubsubpb.Subscriber_StreamingPullClient
-	sctx, scancel := context.WithCancel(world.ActorCtx(ctx, "stream"))
+	streamActor := "stream:" + sc.ID
+	sctx, scancel := context.WithCancel(world.ActorCtx(ctx, streamActor))
 	defer scancel()
+	var park *parker
 	nPub := 0
 	nthWire := func(j int) (int, bool) {
 		var ws []int
@@ -242,7 +247,10 @@ func run(sc *scenario, scratch string) ([]map[string]any, error) {
 		s.emit(map[string]any{"op": "Quiet", "avail": avail, "after": after, "waited_ms": time.Since(start).Milliseconds()})
 		return nil
 	}
-	for _, st := range sc.Steps {
+	for si, st := range sc.Steps {
+		if len(sc.RaceAt) == 2 && si == sc.RaceAt[0] && si+1 < len(sc.Steps) {
+			park = armParker(streamActor, sc.RaceAt[1])
+		}
 		switch st.Op {
 		case "Open":
 			var err error
@@ -332,9 +340,27 @@ func run(sc *scenario, scratch string) ([]map[string]any, error) {
 		default:
 			continue
 		}
+		if park != nil && si == sc.RaceAt[0] {
+			// the next step runs inside the stream's reaction to this one
+			parked := park.await(400 * time.Millisecond)
+			s.mu.Lock()
+			s.emit(map[string]any{"op": "Race", "k": sc.RaceAt[1], "parked": parked})
+			s.mu.Unlock()
+			continue
+		}
+		if park != nil && si == sc.RaceAt[0]+1 {
+			park.free(streamActor)
+			park = nil
+		}
 		if err := quiesce(st.Op); err != nil {
+			if park != nil {
+				park.free(streamActor)
+			}
 			return nil, err
 		}
+	}
+	if park != nil {
+		park.free(streamActor)
 	}
 	scancel()
 	s.mu.Lock()
